@@ -1,13 +1,13 @@
 /-
-  C19, `*n`: the model of `fmt.Fscanf(reader, "%f", &v)` reads, from every state satisfying the cursor invariant
-  (any read-ahead, any buffer size), exactly what the Spec prescribes on the texts of `numProved`.
-  Core Lean only.
+  C19, `*n`: the model of utils.go `readBufioNumber` (fixes/C19-6) reads, from every state satisfying the cursor
+  invariant (any read-ahead, any buffer size), exactly what the Spec prescribes on EVERY text whose reading the Spec
+  fixes (`FileSpec.numSpecified`).  Core Lean only.
 -/
 import GLua.Proofs.IoFile
 
 namespace GLua.IoFile
 open GLua.FileSpec (Bytes Fmt Whence VBuf Mode Op Res)
-open GLua.FileSpec (isBlank isDigit isSign)
+open GLua.FileSpec (isBlank isDigit isSign isHexDigit)
 
 def toOut : Option Bytes → ReadOut
   | none => .eof
@@ -15,39 +15,32 @@ def toOut : Option Bytes → ReadOut
 
 /-- facts about single bytes: unfold the character classes, go to `Nat`, `omega` -/
 macro "byte_omega" : tactic => `(tactic| (
-  simp only [isBlank, isDigit, isSign, okDec, okSign, okN, okA, okI, okF, okZero, okX, okDot, okExp, okP, okHex, isSpaceRune,
-    Bool.or_eq_true, Bool.and_eq_true, Bool.not_eq_true, Bool.or_eq_false_iff, Bool.and_eq_false_iff,
-    decide_eq_true_eq, decide_eq_false_iff_not, beq_iff_eq, beq_eq_false_iff_ne, ne_eq,
+  simp only [isBlank, isDigit, isSign, FileSpec.canStartNumeral, isBlankB, isSignB, isDecB, isZeroB, isXB, isDotB, isEB,
+    Bool.or_eq_true, Bool.and_eq_true, Bool.not_eq_true, Bool.or_eq_false_iff, Bool.and_eq_false_iff, Bool.not_eq_true',
+    Bool.not_eq_false', bne_iff_ne, decide_eq_true_eq, decide_eq_false_iff_not, beq_iff_eq, beq_eq_false_iff_ne, ne_eq,
     UInt8.le_iff_toNat_le, UInt8.lt_iff_toNat_lt, ← UInt8.toNat_inj, UInt8.toNat_ofNat, UInt8.reduceToNat,
     Nat.reducePow, Nat.reduceMod] at *
   <;> omega))
 
-/-! ### one rune -/
+theorem isBlankB_eq (c : UInt8) : isBlankB c = isBlank c := by
+  have h : ∀ n, n < 256 → isBlankB (UInt8.ofNat n) = isBlank (UInt8.ofNat n) := by decide +kernel
+  have := h c.toNat (UInt8.toNat_lt c)
+  simpa using this
 
-theorem decodeRune_ascii {c : UInt8} (hc : c < 128) (t : Bytes) : decodeRune (c :: t) = (c.toNat, 1) := by
-  have : c < 0x80 := hc
-  simp [decodeRune, utf8First, this]
+theorem isDecB_eq (c : UInt8) : isDecB c = isDigit c := rfl
+theorem isSignB_eq (c : UInt8) : isSignB c = isSign c := rfl
 
-theorem fullRune_ascii {c : UInt8} (hc : c < 128) (t : Bytes) : fullRune (c :: t) = true := by
-  have : c < 0x80 := hc
-  simp [fullRune, utf8First, this]
+/-- `c|0x20` in 'a'..'f' or a digit: the hexadecimal digits (all 256 bytes, by evaluation) -/
+theorem isHexB_eq (c : UInt8) : isHexB c = isHexDigit c := by
+  have h : ∀ n, n < 256 → isHexB (UInt8.ofNat n) = isHexDigit (UInt8.ofNat n) := by decide +kernel
+  have := h c.toNat (UInt8.toNat_lt c)
+  simpa using this
 
-/-- with an ASCII byte at the head of the buffer `ReadRune` does not fill. -/
-theorem brPeekRune_buffered (R : Nat) {f : LFile} {c : UInt8} {t : Bytes} (hb : f.rbuf = c :: t) (hc : c < 128) :
-    ∀ fuel, brPeekRune R fuel f = (f, .rune c.toNat 1) := by
-  intro fuel
-  have hd : decodeBuf f = .rune c.toNat 1 := by simp [decodeBuf, hb, decodeRune_ascii hc]
-  cases fuel with
-  | zero => simp [brPeekRune, hd]
-  | succ n =>
-    unfold brPeekRune
-    have : ¬ (f.rbuf.length < 4 ∧ fullRune f.rbuf = false ∧ f.rbuf.length < R) := by
-      rw [hb, fullRune_ascii hc]; simp
-    rw [if_neg this, hd]
+/-! ### one byte -/
 
-theorem brPeekRune_ascii {R : Nat} (hR : 0 < R) {f : LFile} (h : Readable f) {c : UInt8} {t : Bytes}
-    (hS : stream f = c :: t) (hc : c < 128) (fuel : Nat) :
-    ∃ f', Reads f f' [] ∧ (∃ t', f'.rbuf = c :: t') ∧ brPeekRune R (fuel + 1) f = (f', .rune c.toNat 1) := by
+theorem brPeekByte_cons {R : Nat} (hR : 0 < R) {f : LFile} (h : Readable f) {c : UInt8} {t : Bytes}
+    (hS : stream f = c :: t) :
+    ∃ f', Reads f f' [] ∧ (∃ t', f'.rbuf = c :: t') ∧ brPeekByte R f = (f', .byte c) := by
   by_cases he : f.rbuf = []
   · have hd : f.disk.drop f.off = c :: t := by rw [← stream_of_nil he]; exact hS
     have hlen : R - f.rbuf.length = R := by simp [he]
@@ -59,118 +52,74 @@ theorem brPeekRune_ascii {R : Nat} (hR : 0 < R) {f : LFile} (h : Readable f) {c 
       | succ n => simp
     have hrb : (f.rbuf ++ (f.disk.drop f.off).take R) = c :: t.take (R - 1) := by rw [he, htk]; rfl
     refine ⟨_, hp, ⟨t.take (R - 1), hrb⟩, ?_⟩
-    unfold brPeekRune
-    have hcond : f.rbuf.length < 4 ∧ fullRune f.rbuf = false ∧ f.rbuf.length < R := by
-      rw [he]; simp [fullRune, hR]
-    rw [if_pos hcond, brFill_eq h, hlen]
-    have hne : ¬ ((f.disk.drop f.off).take R = []) := by rw [htk]; simp
-    simp only [hne, if_false]
-    exact brPeekRune_buffered R hrb hc fuel
+    unfold brPeekByte
+    rw [brFill_eq h, hlen]
+    simp [he, htk]
   · obtain ⟨c', t', hb⟩ := List.exists_cons_of_ne_nil he
     have : c' = c := by
       have := hS; simp only [stream, hb, List.cons_append] at this
       exact (List.cons.inj this).1
     subst this
-    exact ⟨f, Reads.refl h.inv, ⟨t', hb⟩, brPeekRune_buffered R hb hc _⟩
+    exact ⟨f, Reads.refl h.inv, ⟨t', hb⟩, by simp [brPeekByte, hb]⟩
 
-theorem brPeekRune_eof {R : Nat} (hR : 0 < R) {f : LFile} (h : Readable f) (hS : stream f = []) (fuel : Nat) :
-    ∃ f', Reads f f' [] ∧ stream f' = [] ∧ brPeekRune R (fuel + 1) f = (f', .eof) := by
+theorem brPeekByte_nil {R : Nat} {f : LFile} (h : Readable f) (hS : stream f = []) :
+    ∃ f', Reads f f' [] ∧ stream f' = [] ∧ brPeekByte R f = (f', .eof) := by
   have he : f.rbuf = [] := by
     have := hS; simp only [stream, List.append_eq_nil_iff] at this; exact this.1
   have hd : f.disk.drop f.off = [] := by rw [← stream_of_nil he]; exact hS
   have hlen : R - f.rbuf.length = R := by simp [he]
   have hp := reads_pull h R
   refine ⟨_, hp, by rw [reads_nil_stream hp]; exact hS, ?_⟩
-  unfold brPeekRune
-  have hcond : f.rbuf.length < 4 ∧ fullRune f.rbuf = false ∧ f.rbuf.length < R := by
-    rw [he]; simp [fullRune, hR]
-  rw [if_pos hcond, brFill_eq h, hlen]
-  simp [hd, he, decodeBuf]
+  unfold brPeekByte
+  rw [brFill_eq h, hlen]
+  simp [he, hd]
 
-/-- invariant of the scanner: the reader is usable, and `atEOF` is set only at the end of the stream -/
-structure SInv (s : Scan) : Prop where
+/-- invariant of the reader's state: the bufio.Reader is usable and no read error has been seen -/
+structure NInv (s : NScan) : Prop where
   rd : Readable s.f
-  eof : s.atEOF = true → stream s.f = []
+  noerr : s.ioerr = false
 
-/-- a step of the scanner that appends what it consumes to the token -/
-structure Step (s s' : Scan) (out : Bytes) : Prop where
+/-- a step of the reader that appends what it consumes to the token -/
+structure NStep (s s' : NScan) (out : Bytes) : Prop where
   reads : Reads s.f s'.f out
-  buf : s'.buf = s.buf ++ out
-  inv : SInv s'
+  tok : s'.tok = s.tok ++ out
+  inv : NInv s'
 
-theorem Step.trans {a b c : Scan} {o1 o2 : Bytes} (h1 : Step a b o1) (h2 : Step b c o2) : Step a c (o1 ++ o2) :=
-  ⟨h1.reads.trans h2.reads, by rw [h2.buf, h1.buf, List.append_assoc], h2.inv⟩
+theorem NStep.trans {a b c : NScan} {o1 o2 : Bytes} (h1 : NStep a b o1) (h2 : NStep b c o2) : NStep a c (o1 ++ o2) :=
+  ⟨h1.reads.trans h2.reads, by rw [h2.tok, h1.tok, List.append_assoc], h2.inv⟩
 
 theorem stream_after {f f' : LFile} {out T : Bytes} (r : Reads f f' out) (hS : stream f = out ++ T) : stream f' = T := by
   have := r.str; rw [hS] at this
   exact (List.append_cancel_left this).symm
 
-theorem peekRune_ascii {R : Nat} (hR : 0 < R) {s : Scan} (hs : SInv s) {c : UInt8} {t : Bytes}
-    (hS : stream s.f = c :: t) (hc : c < 128) :
-    ∃ f', Reads s.f f' [] ∧ (∃ t', f'.rbuf = c :: t') ∧ peekRune R s = ({ s with f := f' }, .rune c.toNat 1) := by
-  have hne : s.atEOF = false := by
-    cases he : s.atEOF with
-    | false => rfl
-    | true => have := hs.eof he; rw [hS] at this; cases this
-  obtain ⟨f', hr, hb, he⟩ := brPeekRune_ascii hR hs.rd hS hc 3
-  refine ⟨f', hr, hb, ?_⟩
-  simp [peekRune, hne, he]
+/-- the next byte fails the predicate, or the stream is at its end: `accept` stops -/
+def Stops (pred : UInt8 → Bool) (S : Bytes) : Prop := S = [] ∨ ∃ c t, S = c :: t ∧ pred c = false
 
-theorem peekRune_eof {R : Nat} (hR : 0 < R) {s : Scan} (hs : SInv s) (hS : stream s.f = []) :
-    ∃ s', peekRune R s = (s', .eof) ∧ Reads s.f s'.f [] ∧ s'.buf = s.buf ∧ SInv s' := by
-  cases he : s.atEOF with
-  | true => exact ⟨s, by simp [peekRune, he], Reads.refl hs.rd.inv, rfl, hs⟩
-  | false =>
-    obtain ⟨f', hr, hs', hp⟩ := brPeekRune_eof hR hs.rd hS 3
-    refine ⟨{ s with f := f', atEOF := true }, by simp [peekRune, he, hp], hr, rfl, ⟨hs.rd.of_reads hr, fun _ => hs'⟩⟩
-
-/-- consuming the ASCII byte that was just looked at -/
-theorem advance_ascii {s : Scan} {f' : LFile} {c : UInt8} {t t' : Bytes} (hs : SInv s) (hS : stream s.f = c :: t)
-    (hr : Reads s.f f' []) (hb : f'.rbuf = c :: t') :
-    Reads s.f (({ s with f := f' } : Scan).advance 1).f [c] ∧ SInv (({ s with f := f' } : Scan).advance 1) ∧
-    stream (({ s with f := f' } : Scan).advance 1).f = t := by
+theorem nAccept_hit {R : Nat} (hR : 0 < R) {pred : UInt8 → Bool} {s : NScan} (hs : NInv s) {c : UInt8} {t : Bytes}
+    (hS : stream s.f = c :: t) (hok : pred c = true) :
+    ∃ s', nAccept R pred s = (s', true) ∧ NStep s s' [c] ∧ stream s'.f = t := by
+  obtain ⟨f', hr, ⟨t', hb⟩, hp⟩ := brPeekByte_cons hR hs.rd hS
   have hc := reads_consume hr.inv 1
   have h2 := hr.trans hc
   have ht : f'.rbuf.take 1 = [c] := by rw [hb]; rfl
   rw [ht] at h2
-  have h3 : Reads s.f (({ s with f := f' } : Scan).advance 1).f [c] := by simpa [Scan.advance] using h2
-  have hst := stream_after h3 (by rw [hS]; rfl)
-  refine ⟨h3, ⟨hs.rd.of_reads h3, ?_⟩, hst⟩
-  intro he
-  have hne : s.atEOF = false := by
-    cases hq : s.atEOF with
-    | false => rfl
-    | true => have := hs.eof hq; rw [hS] at this; cases this
-  simp [Scan.advance, hne] at he
+  have h3 : Reads s.f ({ f' with rbuf := f'.rbuf.drop 1 } : LFile) [c] := by simpa using h2
+  refine ⟨{ s with f := { f' with rbuf := f'.rbuf.drop 1 }, tok := s.tok ++ [c] }, by simp [nAccept, hp, hok],
+    ⟨h3, rfl, ⟨hs.rd.of_reads h3, hs.noerr⟩⟩, stream_after h3 (by rw [hS]; rfl)⟩
 
-/-! ### accept -/
+theorem nAccept_stop {R : Nat} (hR : 0 < R) {pred : UInt8 → Bool} {s : NScan} (hs : NInv s) (hst : Stops pred (stream s.f)) :
+    ∃ s', nAccept R pred s = (s', false) ∧ NStep s s' [] := by
+  rcases hst with h0 | ⟨c, t, hS, hok⟩
+  · obtain ⟨f', hr, _, hp⟩ := brPeekByte_nil (R := R) hs.rd h0
+    exact ⟨{ s with f := f' }, by simp [nAccept, hp], ⟨hr, by simp, ⟨hs.rd.of_reads hr, hs.noerr⟩⟩⟩
+  · obtain ⟨f', hr, _, hp⟩ := brPeekByte_cons hR hs.rd hS
+    exact ⟨{ s with f := f' }, by simp [nAccept, hp, hok], ⟨hr, by simp, ⟨hs.rd.of_reads hr, hs.noerr⟩⟩⟩
 
-/-- the next byte is not in the set, or the stream is at its end: `accept` stops -/
-def Stops (ok : Nat → Bool) (S : Bytes) : Prop := S = [] ∨ ∃ c t, S = c :: t ∧ c < 128 ∧ ok c.toNat = false
-
-theorem accept_hit {R : Nat} (hR : 0 < R) {ok : Nat → Bool} {s : Scan} (hs : SInv s) {c : UInt8} {t : Bytes}
-    (hS : stream s.f = c :: t) (hc : c < 128) (hok : ok c.toNat = true) :
-    ∃ s', accept R ok s = (s', some true) ∧ Step s s' [c] ∧ stream s'.f = t := by
-  obtain ⟨f', hr, ⟨t', hb⟩, hp⟩ := peekRune_ascii hR hs hS hc
-  obtain ⟨h1, h2, h3⟩ := advance_ascii hs hS hr hb
-  refine ⟨{ ({ s with f := f' } : Scan).advance 1 with buf := s.buf ++ [c] }, ?_, ⟨h1, rfl, ⟨h2.rd, h2.eof⟩⟩, h3⟩
-  simp [accept, hp, hok]
-
-theorem accept_stop {R : Nat} (hR : 0 < R) {ok : Nat → Bool} {s : Scan} (hs : SInv s) (hst : Stops ok (stream s.f)) :
-    ∃ s', accept R ok s = (s', some false) ∧ Step s s' [] := by
-  rcases hst with h0 | ⟨c, t, hS, hc, hok⟩
-  · obtain ⟨s', hp, hr, hb, hi⟩ := peekRune_eof hR hs h0
-    exact ⟨s', by simp [accept, hp], ⟨hr, by simp [hb], hi⟩⟩
-  · obtain ⟨f', hr, _, hp⟩ := peekRune_ascii hR hs hS hc
-    refine ⟨{ s with f := f' }, by simp [accept, hp, hok], ⟨hr, by simp, ⟨hs.rd.of_reads hr, ?_⟩⟩⟩
-    intro he
-    have := hs.eof he; rw [hS] at this; cases this
-
-/-- `for s.accept(ok) {}` consumes a run of bytes of the set and stops at the first other byte -/
-theorem acceptMany_spec {R : Nat} (hR : 0 < R) {ok : Nat → Bool} :
-    ∀ (ds : Bytes) (fuel : Nat) {s : Scan} {T : Bytes}, SInv s → stream s.f = ds ++ T →
-      (∀ c ∈ ds, c < 128 ∧ ok c.toNat = true) → Stops ok T → ds.length < fuel →
-      ∃ s', acceptMany R ok fuel s = (s', some ()) ∧ Step s s' ds := by
+/-- `for accept(pred) { n++ }` consumes a run of bytes of the class, counts them, and stops at the first other byte -/
+theorem nAcceptMany_spec {R : Nat} (hR : 0 < R) {pred : UInt8 → Bool} :
+    ∀ (ds : Bytes) (fuel : Nat) {s : NScan} {T : Bytes}, NInv s → stream s.f = ds ++ T →
+      (∀ c ∈ ds, pred c = true) → Stops pred T → ds.length < fuel →
+      ∃ s', nAcceptMany R pred fuel s = (s', ds.length) ∧ NStep s s' ds := by
   intro ds
   induction ds with
   | nil =>
@@ -178,40 +127,25 @@ theorem acceptMany_spec {R : Nat} (hR : 0 < R) {ok : Nat → Bool} :
     cases fuel with
     | zero => omega
     | succ n =>
-      obtain ⟨s', ha, hstep⟩ := accept_stop hR hs (by rw [hS]; exact hst)
-      exact ⟨s', by simp [acceptMany, ha], hstep⟩
+      obtain ⟨s', ha, hstep⟩ := nAccept_stop hR hs (by rw [hS]; exact hst)
+      exact ⟨s', by simp [nAcceptMany, ha], hstep⟩
   | cons c ds ih =>
     intro fuel s T hs hS hall hst hf
     cases fuel with
     | zero => omega
     | succ n =>
-      have hc := hall c (List.mem_cons_self ..)
-      obtain ⟨s1, ha, hstep, hS1⟩ := accept_hit hR hs (t := ds ++ T) (by rw [hS]; rfl) hc.1 hc.2
+      obtain ⟨s1, ha, hstep, hS1⟩ := nAccept_hit hR hs (t := ds ++ T) (by rw [hS]; rfl) (hall c (List.mem_cons_self ..))
       obtain ⟨s2, hm, hstep2⟩ := ih n hstep.inv hS1 (fun c' hc' => hall c' (List.mem_cons_of_mem _ hc')) hst
         (by simp at hf; omega)
-      refine ⟨s2, by simp [acceptMany, ha, hm], ?_⟩
+      refine ⟨s2, by simp [nAcceptMany, ha, hm], ?_⟩
       have := hstep.trans hstep2
       simpa using this
 
-/-! ### SkipSpace -/
-
-theorem peekRune_ok {R : Nat} (hR : 0 < R) {s : Scan} (hs : SInv s)
-    (hh : stream s.f = [] ∨ ∃ c t, stream s.f = c :: t ∧ c < 128) :
-    ∃ s' r, peekRune R s = (s', r) ∧ r ≠ .err ∧ Reads s.f s'.f [] ∧ s'.buf = s.buf ∧ SInv s' := by
-  rcases hh with h0 | ⟨c, t, hS, hc⟩
-  · obtain ⟨s', hp, hr, hb, hi⟩ := peekRune_eof hR hs h0
-    exact ⟨s', _, hp, by simp, hr, hb, hi⟩
-  · obtain ⟨f', hr, _, hp⟩ := peekRune_ascii hR hs hS hc
-    refine ⟨{ s with f := f' }, _, hp, by simp, hr, rfl, ⟨hs.rd.of_reads hr, ?_⟩⟩
-    intro he
-    have := hs.eof he; rw [hS] at this; cases this
-
-/-- `SkipSpace` over white space that contains no line feed: all of it is consumed, nothing else. -/
-theorem skipSpace_spec {R : Nat} (hR : 0 < R) :
-    ∀ (ws : Bytes) (fuel : Nat) {s : Scan} {T : Bytes}, SInv s → stream s.f = ws ++ T →
-      (∀ c ∈ ws, isBlank c = true ∧ c ≠ 10) →
-      (T = [] ∨ ∃ c t, T = c :: t ∧ c < 128 ∧ isBlank c = false) → ws.length < fuel →
-      ∃ s', skipSpace R fuel s = (s', .done) ∧ Reads s.f s'.f ws ∧ s'.buf = s.buf ∧ SInv s' := by
+/-- the white-space loop consumes all the white space — line feeds included — and nothing else -/
+theorem nSkipBlanks_spec {R : Nat} (hR : 0 < R) :
+    ∀ (ws : Bytes) (fuel : Nat) {s : NScan} {T : Bytes}, NInv s → stream s.f = ws ++ T →
+      (∀ c ∈ ws, isBlank c = true) → Stops isBlank T → ws.length < fuel →
+      ∃ s', nSkipBlanks R fuel s = (s', decide (T ≠ [])) ∧ Reads s.f s'.f ws ∧ s'.tok = s.tok ∧ NInv s' := by
   intro ws
   induction ws with
   | nil =>
@@ -219,69 +153,36 @@ theorem skipSpace_spec {R : Nat} (hR : 0 < R) :
     cases fuel with
     | zero => omega
     | succ n =>
-      rcases hT with h0 | ⟨c, t, hT, hc, hnb⟩
-      · obtain ⟨s', hp, hr, hb, hi⟩ := peekRune_eof hR hs (by rw [hS, h0]; rfl)
-        exact ⟨s', by simp [skipSpace, hp], hr, hb, hi⟩
-      · obtain ⟨f', hr, _, hp⟩ := peekRune_ascii hR hs (c := c) (t := t) (by rw [hS, hT]; rfl) hc
-        have h13 : c.toNat ≠ 13 := by byte_omega
-        have h10 : c.toNat ≠ 10 := by byte_omega
-        have hsp : isSpaceRune c.toNat = false := by byte_omega
-        refine ⟨{ s with f := f' }, by simp [skipSpace, hp, h13, h10, hsp], hr, rfl, ⟨hs.rd.of_reads hr, ?_⟩⟩
-        intro he
-        have := hs.eof he; rw [hS, hT] at this; cases this
+      rcases hT with h0 | ⟨c, t, hT, hnb⟩
+      · obtain ⟨f', hr, _, hp⟩ := brPeekByte_nil (R := R) hs.rd (by rw [hS, h0]; rfl)
+        exact ⟨{ s with f := f' }, by simp [nSkipBlanks, hp, h0], hr, rfl, ⟨hs.rd.of_reads hr, hs.noerr⟩⟩
+      · obtain ⟨f', hr, _, hp⟩ := brPeekByte_cons hR hs.rd (c := c) (t := t) (by rw [hS, hT]; rfl)
+        exact ⟨{ s with f := f' }, by simp [nSkipBlanks, hp, isBlankB_eq, hnb, hT], hr, rfl, ⟨hs.rd.of_reads hr, hs.noerr⟩⟩
   | cons c ws ih =>
     intro fuel s T hs hS hall hT hf
     cases fuel with
     | zero => omega
     | succ n =>
       have hcb := hall c (List.mem_cons_self ..)
-      have hc : c < 128 := by have := hcb.1; byte_omega
       have hS' : stream s.f = c :: (ws ++ T) := by rw [hS]; rfl
-      obtain ⟨f', hr, ⟨t', hb⟩, hp⟩ := peekRune_ascii hR hs hS' hc
-      obtain ⟨h1, h2, h3⟩ := advance_ascii hs hS' hr hb
-      have hall' : ∀ c' ∈ ws, isBlank c' = true ∧ c' ≠ 10 := fun c' hc' => hall c' (List.mem_cons_of_mem _ hc')
-      have hf' : ws.length < n := by simp at hf; omega
-      have h10 : c.toNat ≠ 10 := by have := hcb.2; byte_omega
-      have hsp : isSpaceRune c.toNat = true := by have := hcb.1; byte_omega
-      by_cases h13 : c.toNat = 13
-      · -- CR: a look at the next rune, then on
-        have hh : stream (({ s with f := f' } : Scan).advance 1).f = [] ∨
-            ∃ c2 t2, stream (({ s with f := f' } : Scan).advance 1).f = c2 :: t2 ∧ c2 < 128 := by
-          rw [h3]
-          cases ws with
-          | nil =>
-            rcases hT with h0 | ⟨c2, t2, hT, hc2, _⟩
-            · left; rw [h0]; rfl
-            · right; exact ⟨c2, t2, by rw [hT]; rfl, hc2⟩
-          | cons c2 ws2 =>
-            right
-            have := (hall' c2 (List.mem_cons_self ..)).1
-            exact ⟨c2, ws2 ++ T, rfl, by byte_omega⟩
-        obtain ⟨s2, r, hp2, hne, hr2, hb2, hi2⟩ := peekRune_ok hR h2 hh
-        have hS2 : stream s2.f = ws ++ T := by rw [reads_nil_stream hr2]; exact h3
-        obtain ⟨s3, hk, hr3, hb3, hi3⟩ := ih n hi2 hS2 hall' hT hf'
-        refine ⟨s3, ?_, ?_, ?_, hi3⟩
-        · unfold skipSpace
-          simp only [hp, h13, if_true, hp2]
-          cases r with
-          | err => exact absurd rfl hne
-          | eof => exact hk
-          | rune a b => exact hk
-        · have := (h1.trans hr2).trans hr3
-          simpa using this
-        · rw [hb3, hb2]; rfl
-      · obtain ⟨s3, hk, hr3, hb3, hi3⟩ := ih n h2 h3 hall' hT hf'
-        refine ⟨s3, ?_, ?_, ?_, hi3⟩
-        · unfold skipSpace
-          simp only [hp, h13, h10, if_false, hsp, if_true]
-          exact hk
-        · have := h1.trans hr3
-          simpa using this
-        · rw [hb3]; rfl
+      obtain ⟨f', hr, ⟨t', hb⟩, hp⟩ := brPeekByte_cons hR hs.rd hS'
+      have hc := reads_consume hr.inv 1
+      have h2 := hr.trans hc
+      have ht : f'.rbuf.take 1 = [c] := by rw [hb]; rfl
+      rw [ht] at h2
+      have h3 : Reads s.f ({ f' with rbuf := f'.rbuf.drop 1 } : LFile) [c] := by simpa using h2
+      have hi : NInv ({ s with f := { f' with rbuf := f'.rbuf.drop 1 } } : NScan) := ⟨hs.rd.of_reads h3, hs.noerr⟩
+      obtain ⟨s3, hk, hr3, ht3, hi3⟩ := ih n hi (stream_after h3 hS') (fun c' hc' => hall c' (List.mem_cons_of_mem _ hc')) hT
+        (by simp at hf; omega)
+      refine ⟨s3, ?_, ?_, ht3, hi3⟩
+      · unfold nSkipBlanks
+        simp only [hp, isBlankB_eq, hcb, if_true]
+        exact hk
+      · have := h3.trans hr3
+        simpa using this
 
-/-! ### floatToken on a decimal numeral -/
+/-! ### the shapes of the Spec's numerals -/
 
-/-- the head of a list, if there is one, has the property -/
 def HeadIn (P : UInt8 → Prop) (L : Bytes) : Prop := L = [] ∨ ∃ c t, L = c :: t ∧ P c
 
 theorem HeadIn.mono {P Q : UInt8 → Prop} {L : Bytes} (h : ∀ c, P c → Q c) : HeadIn P L → HeadIn Q L
@@ -290,9 +191,8 @@ theorem HeadIn.mono {P Q : UInt8 → Prop} {L : Bytes} (h : ∀ c, P c → Q c) 
 
 theorem HeadIn.cons {P : UInt8 → Prop} {c : UInt8} (p : P c) (t : Bytes) : HeadIn P (c :: t) := .inr ⟨c, t, rfl, p⟩
 
-theorem stops_of_headIn {ok : Nat → Bool} {L : Bytes} (h : HeadIn (fun c => c < 128 ∧ ok c.toNat = false) L) : Stops ok L := h
+theorem stops_of_headIn {pred : UInt8 → Bool} {L : Bytes} (h : HeadIn (fun c => pred c = false) L) : Stops pred L := h
 
-/-- the shape of an exponent part -/
 def ExpShape (ex : Bytes) : Prop :=
   ex = [] ∨ ∃ e sg2 d3, ex = e :: sg2 ++ d3 ∧ (e = 101 ∨ e = 69) ∧
     (sg2 = [] ∨ ∃ c, sg2 = [c] ∧ isSign c = true) ∧ d3 ≠ [] ∧ ∀ c ∈ d3, isDigit c = true
@@ -303,7 +203,6 @@ def SignShape (sg : Bytes) : Prop := sg = [] ∨ ∃ c, sg = [c] ∧ isSign c = 
 
 /-- what can follow the integer digits: a period, an exponent letter, white space, the end -/
 def AfterDigits (c : UInt8) : Prop := c = 46 ∨ c = 101 ∨ c = 69 ∨ isBlank c = true
-/-- what can follow the fraction -/
 def AfterFrac (c : UInt8) : Prop := c = 101 ∨ c = 69 ∨ isBlank c = true
 
 theorem head_exrest {ex rest : Bytes} (hex : ExpShape ex) (hrest : HeadIn (fun c => isBlank c = true) rest) :
@@ -321,197 +220,206 @@ theorem head_frexrest {fr ex rest : Bytes} (hfr : FracShape fr) (hex : ExpShape 
   · exact HeadIn.cons (Or.inl rfl) _
 
 theorem afterDigits_stop {c : UInt8} (h : AfterDigits c) :
-    c < 128 ∧ okDec c.toNat = false ∧ okX c.toNat = false ∧ okZero c.toNat = false ∧ okI c.toNat = false ∧
-    okN c.toNat = false ∧ okSign c.toNat = false := by
+    isDecB c = false ∧ isXB c = false ∧ isZeroB c = false ∧ isSignB c = false := by
   rcases h with h | h | h | h
   · subst h; decide
   · subst h; decide
   · subst h; decide
-  · byte_omega
+  · refine ⟨?_, ?_, ?_, ?_⟩ <;> byte_omega
 
-theorem afterFrac_stop {c : UInt8} (h : AfterFrac c) : c < 128 ∧ okDec c.toNat = false ∧ okDot c.toNat = false := by
+theorem afterFrac_stop {c : UInt8} (h : AfterFrac c) : isDecB c = false ∧ isDotB c = false := by
   rcases h with h | h | h
   · subst h; decide
   · subst h; decide
+  · refine ⟨?_, ?_⟩ <;> byte_omega
+
+theorem blank_stop {c : UInt8} (h : isBlank c = true) :
+    isDecB c = false ∧ isEB c = false ∧ isHexB c = false ∧ isSignB c = false ∧ isZeroB c = false ∧ isDotB c = false := by
+  refine ⟨?_, ?_, ?_, ?_, ?_, ?_⟩
+  · byte_omega
+  · byte_omega
+  · rw [isHexB_eq]; simp only [isHexDigit, Bool.or_eq_false_iff]
+    refine ⟨⟨?_, ?_⟩, ?_⟩ <;> byte_omega
+  · byte_omega
+  · byte_omega
   · byte_omega
 
-theorem blank_stop {c : UInt8} (h : isBlank c = true) : c < 128 ∧ okDec c.toNat = false ∧ okExp c.toNat = false := by
-  byte_omega
-
 theorem digit_facts {c : UInt8} (h : isDigit c = true) :
-    c < 128 ∧ okDec c.toNat = true ∧ okX c.toNat = false ∧ okI c.toNat = false ∧ okN c.toNat = false ∧
-    okSign c.toNat = false ∧ (c ≠ 48 → okZero c.toNat = false) := by
-  refine ⟨?_, ?_, ?_, ?_, ?_, ?_, ?_⟩ <;> byte_omega
+    isDecB c = true ∧ isXB c = false ∧ isSignB c = false ∧ (c ≠ 48 → isZeroB c = false) ∧ c ≠ 120 ∧ c ≠ 88 := by
+  refine ⟨h, ?_, ?_, ?_, ?_, ?_⟩ <;> byte_omega
 
-theorem sign_facts {c : UInt8} (h : isSign c = true) : c < 128 ∧ okSign c.toNat = true ∧ okN c.toNat = false := by
-  byte_omega
-
-/-- `s.accept(sign)` in front of a digit, a period or nothing to accept: consumes exactly an optional sign. -/
-theorem acceptSign_spec {R : Nat} (hR : 0 < R) {s : Scan} (hs : SInv s) {sg M : Bytes} (hS : stream s.f = sg ++ M)
-    (hsg : SignShape sg) (hM : Stops okSign M) :
-    ∃ s' b, accept R okSign s = (s', some b) ∧ Step s s' sg ∧ stream s'.f = M := by
+/-- `accept(isSign)` in front of something that is not a sign: consumes exactly an optional sign. -/
+theorem nAcceptSign_spec {R : Nat} (hR : 0 < R) {s : NScan} (hs : NInv s) {sg M : Bytes} (hS : stream s.f = sg ++ M)
+    (hsg : SignShape sg) (hM : Stops isSignB M) :
+    ∃ s' b, nAccept R isSignB s = (s', b) ∧ NStep s s' sg ∧ stream s'.f = M := by
   rcases hsg with rfl | ⟨c, rfl, hc⟩
-  · obtain ⟨s', ha, hst⟩ := accept_stop hR hs (by rw [hS]; exact hM)
+  · obtain ⟨s', ha, hst⟩ := nAccept_stop hR hs (by rw [hS]; exact hM)
     exact ⟨s', false, ha, hst, by rw [reads_nil_stream hst.reads]; exact hS⟩
-  · obtain ⟨s', ha, hst, hS'⟩ := accept_hit hR hs (t := M) (by rw [hS]; rfl) (sign_facts hc).1 (sign_facts hc).2.1
+  · obtain ⟨s', ha, hst, hS'⟩ := nAccept_hit hR hs (t := M) (by rw [hS]; rfl) hc
     exact ⟨s', true, ha, hst, hS'⟩
 
-/-- `0x`? and the integer digits of a decimal numeral -/
-theorem acceptInt_spec {R : Nat} (hR : 0 < R) {s : Scan} (hs : SInv s) {d1 T : Bytes} (fuel : Nat)
-    (hS : stream s.f = d1 ++ T) (hd1 : ∀ c ∈ d1, isDigit c = true) (hT : HeadIn AfterDigits T)
-    (hf : d1.length < fuel) :
-    ∃ s2 s3, acceptHexPrefix R s = (s2, some false) ∧ acceptMany R okDec fuel s2 = (s3, some ()) ∧ Step s s3 d1 ∧
-      stream s3.f = T := by
-  have hTs : Stops okDec T := stops_of_headIn (hT.mono fun c h => ⟨(afterDigits_stop h).1, (afterDigits_stop h).2.1⟩)
-  have hall : ∀ {l : Bytes}, (∀ c ∈ l, isDigit c = true) → ∀ c ∈ l, c < 128 ∧ okDec c.toNat = true :=
-    fun h c hc => ⟨(digit_facts (h c hc)).1, (digit_facts (h c hc)).2.1⟩
+/-- `'0'`? then `'x'`? in front of the integer digits of a decimal numeral: at most a zero is taken, never an `x` -/
+theorem nZeroX_dec {R : Nat} (hR : 0 < R) {s : NScan} (hs : NInv s) {d1 T : Bytes}
+    (hS : stream s.f = d1 ++ T) (hd1 : ∀ c ∈ d1, isDigit c = true) (hT : HeadIn AfterDigits T) :
+    ∃ s2 z d1', d1 = z ++ d1' ∧ nZeroX R s = (s2, z.length, false) ∧ NStep s s2 z ∧ stream s2.f = d1' ++ T := by
   cases d1 with
   | nil =>
-    -- no digit: "0"? fails on a period / exponent letter / blank / end
-    have h0 : Stops okZero (stream s.f) := by
-      rw [hS]; exact stops_of_headIn (hT.mono fun c h => ⟨(afterDigits_stop h).1, (afterDigits_stop h).2.2.2.1⟩)
-    obtain ⟨s2, ha, hst⟩ := accept_stop hR hs h0
-    have hS2 : stream s2.f = [] ++ T := by rw [reads_nil_stream hst.reads]; exact hS
-    obtain ⟨s3, hm, hst3⟩ := acceptMany_spec hR [] fuel hst.inv hS2 (by simp) hTs hf
-    refine ⟨s2, s3, by simp [acceptHexPrefix, ha], hm, by simpa using hst.trans hst3, ?_⟩
-    exact stream_after hst3.reads hS2
+    have h0 : Stops isZeroB (stream s.f) := by
+      rw [hS]; exact stops_of_headIn (hT.mono fun c h => (afterDigits_stop h).2.2.1)
+    obtain ⟨s2, ha, hst⟩ := nAccept_stop hR hs h0
+    exact ⟨s2, [], [], rfl, by simp [nZeroX, ha], hst, by rw [reads_nil_stream hst.reads]; exact hS⟩
   | cons c d1' =>
     have hc := hd1 c (List.mem_cons_self ..)
     have hd1' : ∀ c' ∈ d1', isDigit c' = true := fun c' h' => hd1 c' (List.mem_cons_of_mem _ h')
     by_cases hz : c = 48
     · subst hz
-      obtain ⟨s1, ha, hst1, hS1⟩ := accept_hit hR (ok := okZero) hs (c := 48) (t := d1' ++ T) (by rw [hS]; rfl) (by decide) (by decide)
-      -- "xX"? fails on the next byte
-      have hx : Stops okX (stream s1.f) := by
-        rw [hS1]
+      obtain ⟨s2, ha, hst2, hS2⟩ := nAccept_hit hR (pred := isZeroB) hs (c := 48) (t := d1' ++ T) (by rw [hS]; rfl) (by decide)
+      have hx : Stops isXB (stream s2.f) := by
+        rw [hS2]
         cases d1' with
-        | nil => exact stops_of_headIn (hT.mono fun c h => ⟨(afterDigits_stop h).1, (afterDigits_stop h).2.2.1⟩)
-        | cons c2 d2 =>
-          have := hd1' c2 (List.mem_cons_self ..)
-          exact Or.inr ⟨c2, d2 ++ T, rfl, (digit_facts this).1, (digit_facts this).2.2.1⟩
-      obtain ⟨s2, ha2, hst2⟩ := accept_stop hR hst1.inv hx
-      have hS2 : stream s2.f = d1' ++ T := by rw [reads_nil_stream hst2.reads]; exact hS1
-      obtain ⟨s3, hm, hst3⟩ := acceptMany_spec hR d1' fuel hst2.inv hS2 (hall hd1') hTs (by simp at hf; omega)
-      refine ⟨s2, s3, by simp [acceptHexPrefix, ha, ha2], hm, ?_, stream_after hst3.reads hS2⟩
-      simpa using (hst1.trans hst2).trans hst3
-    · have h0 : Stops okZero (stream s.f) := by
-        rw [hS]; exact Or.inr ⟨c, d1' ++ T, rfl, (digit_facts hc).1, (digit_facts hc).2.2.2.2.2.2 hz⟩
-      obtain ⟨s2, ha, hst⟩ := accept_stop hR hs h0
-      have hS2 : stream s2.f = (c :: d1') ++ T := by rw [reads_nil_stream hst.reads]; exact hS
-      obtain ⟨s3, hm, hst3⟩ := acceptMany_spec hR (c :: d1') fuel hst.inv hS2 (hall hd1) hTs hf
-      refine ⟨s2, s3, by simp [acceptHexPrefix, ha], hm, by simpa using hst.trans hst3, stream_after hst3.reads hS2⟩
+        | nil => exact stops_of_headIn (hT.mono fun c h => (afterDigits_stop h).2.1)
+        | cons c2 d2 => exact Or.inr ⟨c2, _, rfl, (digit_facts (hd1' c2 (List.mem_cons_self ..))).2.1⟩
+      obtain ⟨s3, ha3, hst3⟩ := nAccept_stop hR hst2.inv hx
+      refine ⟨s3, [48], d1', rfl, by simp [nZeroX, ha, ha3], by simpa using hst2.trans hst3, ?_⟩
+      rw [reads_nil_stream hst3.reads]; exact hS2
+    · have h0 : Stops isZeroB (stream s.f) := by
+        rw [hS]; exact Or.inr ⟨c, _, rfl, (digit_facts hc).2.2.2.1 hz⟩
+      obtain ⟨s2, ha, hst⟩ := nAccept_stop hR hs h0
+      exact ⟨s2, [], c :: d1', rfl, by simp [nZeroX, ha], hst, by rw [reads_nil_stream hst.reads]; exact hS⟩
 
-/-- the fraction -/
-theorem acceptFrac_spec {R : Nat} (hR : 0 < R) {s : Scan} (hs : SInv s) {fr T : Bytes} (fuel : Nat)
-    (hS : stream s.f = fr ++ T) (hfr : FracShape fr) (hT : HeadIn AfterFrac T) (hf : fr.length < fuel) :
-    ∃ s', acceptFrac R okDec fuel s = (s', some ()) ∧ Step s s' fr ∧ stream s'.f = T := by
-  have hTs : Stops okDec T := stops_of_headIn (hT.mono fun c h => ⟨(afterFrac_stop h).1, (afterFrac_stop h).2.1⟩)
+/-- the digits and the fraction -/
+theorem nMantissa_spec {R : Nat} (hR : 0 < R) {s : NScan} (hs : NInv s) {d1 fr T : Bytes} (fuel : Nat)
+    (hS : stream s.f = d1 ++ (fr ++ T)) (hd1 : ∀ c ∈ d1, isDigit c = true) (hfr : FracShape fr)
+    (hT : HeadIn AfterFrac T) (hf : d1.length + fr.length < fuel) :
+    ∃ s', nMantissa R fuel s = (s', d1.length + (fr.length - 1)) ∧ NStep s s' (d1 ++ fr) ∧ stream s'.f = T := by
+  have hTs : Stops isDecB T := stops_of_headIn (hT.mono fun c h => (afterFrac_stop h).1)
+  have hT1 : Stops isDecB (fr ++ T) := by
+    rcases hfr with rfl | ⟨d2, rfl, _⟩
+    · simpa using hTs
+    · exact Or.inr ⟨46, _, rfl, by decide⟩
+  obtain ⟨s1, hm1, hst1⟩ := nAcceptMany_spec hR (pred := isDecB) d1 fuel hs hS (fun c hc => hd1 c hc) hT1 (by omega)
+  have hS1 : stream s1.f = fr ++ T := stream_after hst1.reads hS
   rcases hfr with rfl | ⟨d2, rfl, hd2⟩
-  · have h0 : Stops okDot (stream s.f) := by
-      rw [hS]; exact stops_of_headIn (hT.mono fun c h => ⟨(afterFrac_stop h).1, (afterFrac_stop h).2.2⟩)
-    obtain ⟨s', ha, hst⟩ := accept_stop hR hs h0
-    exact ⟨s', by simp [acceptFrac, ha], hst, by rw [reads_nil_stream hst.reads]; exact hS⟩
-  · obtain ⟨s1, ha, hst1, hS1⟩ := accept_hit hR (ok := okDot) hs (c := 46) (t := d2 ++ T) (by rw [hS]; rfl) (by decide) (by decide)
-    obtain ⟨s2, hm, hst2⟩ := acceptMany_spec hR d2 fuel hst1.inv hS1
-      (fun c hc => ⟨(digit_facts (hd2 c hc)).1, (digit_facts (hd2 c hc)).2.1⟩) hTs (by simp at hf; omega)
-    exact ⟨s2, by simp [acceptFrac, ha, hm], by simpa using hst1.trans hst2, stream_after hst2.reads hS1⟩
-
-/-- the exponent -/
-theorem acceptExp_spec {R : Nat} (hR : 0 < R) {s : Scan} (hs : SInv s) {ex T : Bytes} (fuel : Nat)
-    (hS : stream s.f = ex ++ T) (hex : ExpShape ex) (hT : HeadIn (fun c => isBlank c = true) T) (hf : ex.length < fuel) :
-    ∃ s', acceptExp R okExp fuel s = (s', some ()) ∧ Step s s' ex ∧ stream s'.f = T := by
-  have hTs : Stops okDec T := stops_of_headIn (hT.mono fun c h => ⟨(blank_stop h).1, (blank_stop h).2.1⟩)
-  rcases hex with rfl | ⟨e, sg2, d3, rfl, he, hsg2, hne, hd3⟩
-  · have h0 : Stops okExp (stream s.f) := by
-      rw [hS]; exact stops_of_headIn (hT.mono fun c h => ⟨(blank_stop h).1, (blank_stop h).2.2⟩)
-    obtain ⟨s', ha, hst⟩ := accept_stop hR hs h0
-    exact ⟨s', by simp [acceptExp, ha], hst, by rw [reads_nil_stream hst.reads]; exact hS⟩
-  · have hee : e < 128 ∧ okExp e.toNat = true := by rcases he with h | h <;> subst h <;> decide
-    obtain ⟨s1, ha, hst1, hS1⟩ := accept_hit hR hs (c := e) (t := sg2 ++ (d3 ++ T)) (by rw [hS]; simp) hee.1 hee.2
-    -- the digits are not empty, so without a sign the next byte is a digit
-    have hM : Stops okSign (d3 ++ T) := by
-      obtain ⟨c3, t3, rfl⟩ := List.exists_cons_of_ne_nil hne
-      have := hd3 c3 (List.mem_cons_self ..)
-      exact Or.inr ⟨c3, t3 ++ T, rfl, (digit_facts this).1, (digit_facts this).2.2.2.2.2.1⟩
-    obtain ⟨s2, b, ha2, hst2, hS2⟩ := acceptSign_spec hR hst1.inv hS1 hsg2 hM
-    obtain ⟨s3, hm, hst3⟩ := acceptMany_spec hR d3 fuel hst2.inv hS2
-      (fun c hc => ⟨(digit_facts (hd3 c hc)).1, (digit_facts (hd3 c hc)).2.1⟩) hTs (by simp at hf; omega)
-    refine ⟨s3, by simp [acceptExp, ha, ha2, hm], ?_, stream_after hst3.reads hS2⟩
+  · have h0 : Stops isDotB (stream s1.f) := by
+      rw [hS1]; exact stops_of_headIn (by simpa using hT.mono fun c h => (afterFrac_stop h).2)
+    obtain ⟨s2, ha, hst2⟩ := nAccept_stop hR hst1.inv h0
+    refine ⟨s2, by simp [nMantissa, hm1, ha], by simpa using hst1.trans hst2, ?_⟩
+    rw [reads_nil_stream hst2.reads]; simpa using hS1
+  · obtain ⟨s2, ha, hst2, hS2⟩ := nAccept_hit hR (pred := isDotB) hst1.inv (c := 46) (t := d2 ++ T) (by rw [hS1]; rfl) (by decide)
+    obtain ⟨s3, hm3, hst3⟩ := nAcceptMany_spec hR (pred := isDecB) d2 fuel hst2.inv hS2 (fun c hc => hd2 c hc) hTs (by simp at hf; omega)
+    refine ⟨s3, by simp [nMantissa, hm1, ha, hm3], ?_, stream_after hst3.reads hS2⟩
     have := (hst1.trans hst2).trans hst3
     simpa using this
 
-/-- **`floatToken` on a decimal numeral followed by white space or the end of the file reads exactly the numeral.** -/
-theorem floatToken_dec {R : Nat} (hR : 0 < R) {s : Scan} (hs : SInv s) {sg d1 fr ex rest : Bytes} (fuel : Nat)
+/-- the exponent -/
+theorem nExponent_spec {R : Nat} (hR : 0 < R) {s : NScan} (hs : NInv s) {ex T : Bytes} (fuel : Nat)
+    (hS : stream s.f = ex ++ T) (hex : ExpShape ex) (hT : HeadIn (fun c => isBlank c = true) T) (hf : ex.length < fuel) :
+    NStep s (nExponent R fuel s) ex := by
+  have hTs : Stops isDecB T := stops_of_headIn (hT.mono fun c h => (blank_stop h).1)
+  rcases hex with rfl | ⟨e, sg2, d3, rfl, he, hsg2, hne, hd3⟩
+  · have h0 : Stops isEB (stream s.f) := by
+      rw [hS]; exact stops_of_headIn (by simpa using hT.mono fun c h => (blank_stop h).2.1)
+    obtain ⟨s', ha, hst⟩ := nAccept_stop hR hs h0
+    simpa [nExponent, ha] using hst
+  · have hee : isEB e = true := by rcases he with h | h <;> subst h <;> decide
+    obtain ⟨s1, ha, hst1, hS1⟩ := nAccept_hit hR hs (c := e) (t := sg2 ++ (d3 ++ T)) (by rw [hS]; simp) hee
+    have hM : Stops isSignB (d3 ++ T) := by
+      obtain ⟨c3, t3, rfl⟩ := List.exists_cons_of_ne_nil hne
+      exact Or.inr ⟨c3, t3 ++ T, rfl, (digit_facts (hd3 c3 (List.mem_cons_self ..))).2.2.1⟩
+    obtain ⟨s2, b, ha2, hst2, hS2⟩ := nAcceptSign_spec hR hst1.inv hS1 hsg2 hM
+    obtain ⟨s3, hm, hst3⟩ := nAcceptMany_spec hR (pred := isDecB) d3 fuel hst2.inv hS2 (fun c hc => hd3 c hc) hTs (by simp at hf; omega)
+    have := (hst1.trans hst2).trans hst3
+    simpa [nExponent, ha, ha2, hm] using this
+
+/-- **the token part on a decimal numeral followed by white space or the end of the file reads exactly the numeral.** -/
+theorem nToken_dec {R : Nat} (hR : 0 < R) {s : NScan} (hs : NInv s) {sg d1 fr ex rest : Bytes} (fuel : Nat)
     (hS : stream s.f = sg ++ (d1 ++ (fr ++ (ex ++ rest))))
     (hsg : SignShape sg) (hd1 : ∀ c ∈ d1, isDigit c = true) (hfr : FracShape fr)
     (hne : ¬ (d1 = [] ∧ fr.length ≤ 1)) (hex : ExpShape ex)
     (hrest : HeadIn (fun c => isBlank c = true) rest)
     (hfuel : (sg ++ (d1 ++ (fr ++ (ex ++ rest)))).length < fuel) :
-    ∃ s', floatToken R fuel s = (s', some ()) ∧ Reads s.f s'.f (sg ++ (d1 ++ (fr ++ ex))) ∧
-      s'.buf = sg ++ (d1 ++ (fr ++ ex)) ∧ SInv s' := by
+    NStep s (nToken R fuel s) (sg ++ (d1 ++ (fr ++ ex))) := by
   have hT1 := head_frexrest hfr hex hrest
   have hT2 := head_exrest hex hrest
+  have hlen := hfuel
+  simp only [List.length_append] at hlen
   -- the byte after the sign: a digit or the period
-  have hM : HeadIn (fun c => isDigit c = true ∨ c = 46) (d1 ++ (fr ++ (ex ++ rest))) ∧ d1 ++ (fr ++ (ex ++ rest)) ≠ [] := by
+  have hM : HeadIn (fun c => isDigit c = true ∨ c = 46) (d1 ++ (fr ++ (ex ++ rest))) := by
     cases d1 with
-    | cons c d => exact ⟨HeadIn.cons (Or.inl (hd1 c (List.mem_cons_self ..))) _, by simp⟩
+    | cons c d => exact HeadIn.cons (Or.inl (hd1 c (List.mem_cons_self ..))) _
     | nil =>
       rcases hfr with rfl | ⟨d2, rfl, _⟩
       · exact absurd ⟨rfl, by simp⟩ hne
-      · exact ⟨HeadIn.cons (Or.inr rfl) _, by simp⟩
-  have hMfacts : ∀ c, (isDigit c = true ∨ c = 46) →
-      c < 128 ∧ okSign c.toNat = false ∧ okI c.toNat = false ∧ okN c.toNat = false := by
-    intro c h
+      · exact HeadIn.cons (Or.inr rfl) _
+  have hMs : Stops isSignB (d1 ++ (fr ++ (ex ++ rest))) := stops_of_headIn (hM.mono fun c h => by
     rcases h with h | h
-    · exact ⟨(digit_facts h).1, (digit_facts h).2.2.2.2.2.1, (digit_facts h).2.2.2.1, (digit_facts h).2.2.2.2.1⟩
-    · subst h; decide
-  -- s.buf = s.buf[:0]
-  have hs0 : SInv ({ s with buf := [] } : Scan) := ⟨hs.rd, hs.eof⟩
-  -- NaN? no: the first byte is a sign, a digit or a period
-  have hN : Stops okN (stream ({ s with buf := [] } : Scan).f) := by
-    show Stops okN (stream s.f)
-    rw [hS]
-    rcases hsg with rfl | ⟨c, rfl, hc⟩
-    · exact stops_of_headIn (hM.1.mono fun c h => ⟨(hMfacts c h).1, (hMfacts c h).2.2.2⟩)
-    · exact Or.inr ⟨c, _, rfl, (sign_facts hc).1, (sign_facts hc).2.2⟩
-  obtain ⟨sA, haA, hstA⟩ := accept_stop hR hs0 hN
-  have hSA : stream sA.f = sg ++ (d1 ++ (fr ++ (ex ++ rest))) := by rw [reads_nil_stream hstA.reads]; exact hS
-  -- sign?
-  obtain ⟨sB, b, haB, hstB, hSB⟩ := acceptSign_spec hR hstA.inv hSA hsg
-    (stops_of_headIn (hM.1.mono fun c h => ⟨(hMfacts c h).1, (hMfacts c h).2.1⟩))
-  -- Inf? no
-  have hI : Stops okI (stream sB.f) := by
-    rw [hSB]; exact stops_of_headIn (hM.1.mono fun c h => ⟨(hMfacts c h).1, (hMfacts c h).2.2.1⟩)
-  obtain ⟨sC, haC, hstC⟩ := accept_stop hR hstB.inv hI
-  have hSC : stream sC.f = d1 ++ (fr ++ (ex ++ rest)) := by rw [reads_nil_stream hstC.reads]; exact hSB
-  have hlen := hfuel
-  simp only [List.length_append] at hlen
-  -- digits, fraction, exponent
-  obtain ⟨s2, s3, hhx, hm3, hst3, hS3⟩ := acceptInt_spec hR hstC.inv fuel hSC hd1 hT1 (by omega)
-  obtain ⟨s5, hf5, hst5, hS5⟩ := acceptFrac_spec hR hst3.inv fuel hS3 hfr hT2 (by omega)
-  obtain ⟨s6, he6, hst6, _⟩ := acceptExp_spec hR hst5.inv fuel hS5 hex hrest (by omega)
-  have hall := (((hstA.trans hstB).trans hstC).trans hst3).trans (hst5.trans hst6)
-  refine ⟨s6, ?_, ?_, ?_, hst6.inv⟩
-  · simp [floatToken, accept3, haA, haB, haC, floatTokenNum, hhx, hm3, hf5, he6]
-  · simpa using hall.reads
-  · have := hall.buf; simpa using this
+    · exact (digit_facts h).2.2.1
+    · subst h; decide)
+  obtain ⟨s1, b1, ha1, hst1, hS1⟩ := nAcceptSign_spec hR hs hS hsg hMs
+  obtain ⟨s2, z, d1', hz, hzx, hst2, hS2⟩ := nZeroX_dec hR hst1.inv hS1 hd1 hT1
+  have hd1' : ∀ c ∈ d1', isDigit c = true := fun c hc => hd1 c (by rw [hz]; exact List.mem_append_right _ hc)
+  have hl1 : d1.length = z.length + d1'.length := by rw [hz, List.length_append]
+  obtain ⟨s3, hm, hst3, hS3⟩ := nMantissa_spec hR hst2.inv fuel hS2 hd1' hfr hT2 (by omega)
+  have hnd : z.length + (d1'.length + (fr.length - 1)) > 0 := by
+    apply Classical.byContradiction
+    intro hc
+    apply hne
+    refine ⟨?_, by omega⟩
+    apply List.eq_nil_of_length_eq_zero; omega
+  have hst4 := nExponent_spec hR hst3.inv fuel hS3 hex hrest (by omega)
+  have htok : nToken R fuel s = nExponent R fuel s3 := by
+    simp only [nToken, ha1, hzx, hm]
+    rw [if_pos hnd]
+  rw [htok]
+  have := ((hst1.trans hst2).trans hst3).trans hst4
+  rw [hz]
+  simpa using this
 
-/-! ### the Spec's numeral, taken apart -/
+/-- the token part on a hexadecimal integer followed by something that is not a hexadecimal digit -/
+theorem nToken_hex {R : Nat} (hR : 0 < R) {s : NScan} (hs : NInv s) {sg hs' rest : Bytes} {x : UInt8} (fuel : Nat)
+    (hS : stream s.f = sg ++ (48 :: x :: (hs' ++ rest)))
+    (hsg : SignShape sg) (hx : x = 120 ∨ x = 88) (hh : ∀ c ∈ hs', isHexDigit c = true)
+    (hrest : HeadIn (fun c => isHexDigit c = false) rest)
+    (hfuel : hs'.length < fuel) :
+    NStep s (nToken R fuel s) (sg ++ (48 :: x :: hs')) := by
+  have hMs : Stops isSignB (48 :: x :: (hs' ++ rest)) := Or.inr ⟨48, _, rfl, by decide⟩
+  obtain ⟨s1, b1, ha1, hst1, hS1⟩ := nAcceptSign_spec hR hs hS hsg hMs
+  obtain ⟨s2, ha2, hst2, hS2⟩ := nAccept_hit hR (pred := isZeroB) hst1.inv hS1 (by decide)
+  have hxb : isXB x = true := by rcases hx with h | h <;> subst h <;> decide
+  obtain ⟨s3, ha3, hst3, hS3⟩ := nAccept_hit hR (pred := isXB) hst2.inv hS2 hxb
+  obtain ⟨s4, hm, hst4⟩ := nAcceptMany_spec hR (pred := isHexB) hs' fuel hst3.inv hS3 (fun c hc => by rw [isHexB_eq]; exact hh c hc)
+    (stops_of_headIn (hrest.mono fun c h => by rw [isHexB_eq]; exact h)) hfuel
+  have htok : nToken R fuel s = s4 := by
+    simp [nToken, ha1, nZeroX, ha2, ha3, hm]
+  rw [htok]
+  have := ((hst1.trans hst2).trans hst3).trans hst4
+  simpa using this
 
-/-- the texts at the cursor on which `*n` is PROVED to agree with the Spec: white space without a line feed (open
-    finding C19-readnum-rejects-newline), then the end of the file, or a DECIMAL numeral (open finding
-    C19-readnum-rejects-hex) followed by white space or the end of the file, whose value rounds to a finite double
-    and which the model of `strconv.ParseFloat` accepts (that it accepts every such numeral is observed on each run,
-    not proved). -/
-def numProved (S : Bytes) : Bool :=
-  !(S.takeWhile isBlank).contains 10 &&
-  ((S.dropWhile isBlank).isEmpty ||
-   ((FileSpec.hexNumeral (S.dropWhile isBlank)).isNone &&
-    match FileSpec.decNumeral (S.dropWhile isBlank) with
-    | some (tok, rest) =>
-      (rest.isEmpty || rest.head?.map isBlank == some true) &&
-      FileSpec.roundsFinite (FileSpec.numValue tok) && convertFloat tok == .ok
-    | none => false))
+/-- the token part in front of a byte that cannot begin a numeral (or at the end): nothing is taken -/
+theorem nToken_none {R : Nat} (hR : 0 < R) {s : NScan} (hs : NInv s) (fuel : Nat) (hf : 0 < fuel)
+    (hh : HeadIn (fun c => isSign c = false ∧ isDigit c = false ∧ c ≠ 46) (stream s.f)) :
+    NStep s (nToken R fuel s) [] := by
+  obtain ⟨s1, ha1, hst1⟩ := nAccept_stop hR (pred := isSignB) hs (stops_of_headIn (hh.mono fun c h => h.1))
+  have hS1 := reads_nil_stream hst1.reads
+  have hh1 : HeadIn (fun c => isSign c = false ∧ isDigit c = false ∧ c ≠ 46) (stream s1.f) := by rw [hS1]; exact hh
+  obtain ⟨s2, ha2, hst2⟩ := nAccept_stop hR (pred := isZeroB) hst1.inv
+    (stops_of_headIn (hh1.mono fun c h => by have := h.2.1; byte_omega))
+  have hh2 : HeadIn (fun c => isSign c = false ∧ isDigit c = false ∧ c ≠ 46) (stream s2.f) := by
+    rw [reads_nil_stream hst2.reads]; exact hh1
+  cases fuel with
+  | zero => omega
+  | succ n =>
+    obtain ⟨s3, ha3, hst3⟩ := nAccept_stop hR (pred := isDecB) hst2.inv (stops_of_headIn (hh2.mono fun c h => h.2.1))
+    have hh3 : HeadIn (fun c => isSign c = false ∧ isDigit c = false ∧ c ≠ 46) (stream s3.f) := by
+      rw [reads_nil_stream hst3.reads]; exact hh2
+    obtain ⟨s4, ha4, hst4⟩ := nAccept_stop hR (pred := isDotB) hst3.inv
+      (stops_of_headIn (hh3.mono fun c h => by have := h.2.2; byte_omega))
+    have htok : nToken R (n + 1) s = s4 := by
+      simp [nToken, ha1, nZeroX, ha2, nMantissa, nAcceptMany, ha3, ha4]
+    rw [htok]
+    simpa using ((hst1.trans hst2).trans hst3).trans hst4
+
+/-! ### `luaNumeralBase` accepts the Spec's numerals -/
 
 theorem mem_tw {p : UInt8 → Bool} {l : Bytes} {c : UInt8} (h : c ∈ l.takeWhile p) : p c = true := by
   induction l with
@@ -523,6 +431,135 @@ theorem mem_tw {p : UInt8 → Bool} {l : Bytes} {c : UInt8} (h : c ∈ l.takeWhi
       · subst e; exact ha
       · exact ih e
     · rw [List.takeWhile_cons_of_neg ha] at h; simp at h
+
+theorem span_stop {p : UInt8 → Bool} {ds T : Bytes} (hall : ∀ c ∈ ds, p c = true) (hT : Stops p T) :
+    (ds ++ T).takeWhile p = ds ∧ (ds ++ T).dropWhile p = T := by
+  induction ds with
+  | nil =>
+    rcases hT with rfl | ⟨c, t, rfl, hc⟩
+    · simp
+    · simp [List.takeWhile_cons, List.dropWhile_cons, hc]
+  | cons a r ih =>
+    have ha := hall a (List.mem_cons_self ..)
+    have := ih (fun c hc => hall c (List.mem_cons_of_mem _ hc))
+    simp [List.takeWhile_cons, List.dropWhile_cons, ha, this.1, this.2]
+
+theorem sign_byte {c : UInt8} (h : isSign c = true) : c = 43 ∨ c = 45 := by
+  simp only [isSign, Bool.or_eq_true, beq_iff_eq] at h; exact h
+
+theorem stripSignB_sign {sg M : Bytes} (hsg : SignShape sg) (hM : HeadIn (fun c => isSign c = false) M) :
+    stripSignB (sg ++ M) = M := by
+  rcases hsg with rfl | ⟨c, rfl, hc⟩
+  · rcases hM with rfl | ⟨c, t, rfl, hc⟩
+    · rfl
+    · have h1 : ¬ (c = 43 ∨ c = 45) := by
+        intro h; have : isSign c = true := by simp [isSign, h]
+        rw [hc] at this; cases this
+      simp [stripSignB, h1]
+  · simp [stripSignB, sign_byte hc]
+
+theorem isHexPrefix_noX {M : Bytes} (h : ∀ c ∈ M, c ≠ 120 ∧ c ≠ 88) : isHexPrefix M = false := by
+  match M with
+  | [] => rfl
+  | [_] => rfl
+  | [_, _] => rfl
+  | z :: x :: y :: t =>
+    have := h x (by simp)
+    simp [isHexPrefix, this.1, this.2]
+
+theorem luaNumeralBase_dec {sg d1 fr ex : Bytes} (hsg : SignShape sg) (hd1 : ∀ c ∈ d1, isDigit c = true)
+    (hfr : FracShape fr) (hne : ¬ (d1 = [] ∧ fr.length ≤ 1)) (hex : ExpShape ex) :
+    luaNumeralBase (sg ++ (d1 ++ (fr ++ ex))) = 10 := by
+  -- the first byte after the sign is a digit or the period
+  have hM : HeadIn (fun c => isSign c = false) (d1 ++ (fr ++ ex)) := by
+    cases d1 with
+    | cons c d => exact HeadIn.cons (by have := hd1 c (List.mem_cons_self ..); byte_omega) _
+    | nil =>
+      rcases hfr with rfl | ⟨d2, rfl, _⟩
+      · exact absurd ⟨rfl, by simp⟩ hne
+      · exact HeadIn.cons (by decide) _
+  have hstrip := stripSignB_sign hsg hM
+  -- no x anywhere
+  have hnox : ∀ c ∈ d1 ++ (fr ++ ex), c ≠ 120 ∧ c ≠ 88 := by
+    intro c hc
+    have hdig : ∀ {c : UInt8}, isDigit c = true → c ≠ 120 ∧ c ≠ 88 := fun h => ⟨(digit_facts h).2.2.2.2.1, (digit_facts h).2.2.2.2.2⟩
+    rcases List.mem_append.mp hc with h | h
+    · exact hdig (hd1 c h)
+    · rcases List.mem_append.mp h with h | h
+      · rcases hfr with rfl | ⟨d2, rfl, hd2⟩
+        · simp at h
+        · rcases List.mem_cons.mp h with e | e
+          · subst e; decide
+          · exact hdig (hd2 c e)
+      · rcases hex with rfl | ⟨e, sg2, d3, rfl, he, hsg2, _, hd3⟩
+        · simp at h
+        · rcases List.mem_cons.mp h with e1 | e1
+          · subst e1; rcases he with h2 | h2 <;> subst h2 <;> decide
+          · rcases List.mem_append.mp e1 with e2 | e2
+            · rcases hsg2 with rfl | ⟨c2, rfl, hc2⟩
+              · simp at e2
+              · have : c = c2 := by simpa using e2
+                subst this
+                rcases sign_byte hc2 with h3 | h3 <;> subst h3 <;> decide
+            · exact hdig (hd3 c e2)
+  unfold luaNumeralBase
+  rw [hstrip, isHexPrefix_noX hnox]
+  simp only [Bool.false_eq_true, if_false]
+  -- the digits, the fraction, the exponent
+  have hE : Stops isDecB ex := by
+    rcases hex with rfl | ⟨e, sg2, d3, rfl, he, _⟩
+    · exact Or.inl rfl
+    · exact Or.inr ⟨e, _, rfl, by rcases he with h | h <;> subst h <;> decide⟩
+  have hFE : Stops isDecB (fr ++ ex) := by
+    rcases hfr with rfl | ⟨d2, rfl, _⟩
+    · simpa using hE
+    · exact Or.inr ⟨46, _, rfl, by decide⟩
+  obtain ⟨ht1, hdr1⟩ := span_stop (p := isDecB) (fun c hc => hd1 c hc) hFE
+  unfold luaNumeralDec
+  simp only [ht1, hdr1]
+  -- after the mantissa: the digits of the fraction, the exponent part is left
+  have hmant : fracDigits (fr ++ ex) = (fr.length - 1, ex) := by
+    rcases hfr with rfl | ⟨d2, rfl, hd2⟩
+    · rcases hex with rfl | ⟨e, sg2, d3, rfl, he, _⟩
+      · rfl
+      · have : e ≠ 46 := by rcases he with h | h <;> subst h <;> decide
+        simp [fracDigits, this]
+    · obtain ⟨h1, h2⟩ := span_stop (p := isDecB) (fun c hc => hd2 c hc) hE
+      simp [fracDigits, h1, h2]
+  rw [hmant]
+  have hnd : d1.length + (fr.length - 1) > 0 := by
+    apply Classical.byContradiction
+    intro hc
+    apply hne
+    exact ⟨List.eq_nil_of_length_eq_zero (by omega), by omega⟩
+  generalize d1.length + (fr.length - 1) = n at hnd ⊢
+  have hn0 : n ≠ 0 := by omega
+  rcases hex with rfl | ⟨e, sg2, d3, rfl, he, hsg2, hne3, hd3⟩
+  · simp [startsE, hnd, hn0]
+  · have heb : (e == 101 || e == 69) = true := by rcases he with h | h <;> subst h <;> decide
+    have hd3h : HeadIn (fun c => isSign c = false) d3 := by
+      obtain ⟨c3, t3, rfl⟩ := List.exists_cons_of_ne_nil hne3
+      exact HeadIn.cons (by have := hd3 c3 (List.mem_cons_self ..); byte_omega) _
+    have hs := stripSignB_sign hsg2 hd3h
+    obtain ⟨h1, h2⟩ := span_stop (p := isDecB) (T := []) (fun c hc => hd3 c hc) (Or.inl rfl)
+    simp only [List.append_nil] at h1 h2
+    have hpos : 0 < d3.length := List.length_pos_iff.mpr hne3
+    have hd0 : d3.length ≠ 0 := by omega
+    simp [startsE, hnd, heb, hs, h1, h2, hne3]
+
+theorem luaNumeralBase_hex {sg hs' : Bytes} {x : UInt8} (hsg : SignShape sg) (hx : x = 120 ∨ x = 88)
+    (hne : hs' ≠ []) (hh : ∀ c ∈ hs', isHexDigit c = true) :
+    luaNumeralBase (sg ++ (48 :: x :: hs')) = 16 := by
+  have hstrip := stripSignB_sign (M := 48 :: x :: hs') hsg (HeadIn.cons (by decide) _)
+  obtain ⟨h0, t0, rfl⟩ := List.exists_cons_of_ne_nil hne
+  have hxb : (x == 120 || x == 88) = true := by rcases hx with h | h <;> subst h <;> decide
+  unfold luaNumeralBase
+  rw [hstrip]
+  have hall : (h0 :: t0).all isHexB = true := by
+    rw [List.all_eq_true]; intro c hc; rw [isHexB_eq]; exact hh c hc
+  simp only [isHexPrefix, beq_self_eq_true, hxb, Bool.and_self, if_true, List.drop_succ_cons, List.drop_zero, hall]
+
+/-! ### the Spec's numerals, taken apart -/
 
 theorem spanSign_eq (t : Bytes) : (FileSpec.spanSign t).1 ++ (FileSpec.spanSign t).2 = t ∧ SignShape (FileSpec.spanSign t).1 := by
   cases t with
@@ -571,223 +608,182 @@ theorem dropWhile_head (p : UInt8 → Bool) (l : Bytes) : HeadIn (fun c => p c =
 theorem scanFuel_eq (f : LFile) : scanFuel f = (stream f).length + 2 := by
   rw [stream_length]; rfl
 
-/-- **`*n` on the texts of `numProved`: the Model reads what the Spec prescribes, and the cursor ends where the
-    Spec puts it** — right after the numeral, or at the end of the file; for every buffer size and read-ahead. -/
-theorem fscanNumber_sim {R : Nat} (hR : 0 < R) {f : LFile} (h : Readable f) (hg : numProved (stream f) = true) :
+/-- what the Spec's classification says about a text that begins with a byte that is not white space -/
+inductive TokCase (t : Bytes) : FileSpec.NumClass → Bytes → Prop where
+  | dec (sg d1 fr ex rest : Bytes) (ws : Bytes) :
+      t = sg ++ (d1 ++ (fr ++ (ex ++ rest))) → SignShape sg → (∀ c ∈ d1, isDigit c = true) → FracShape fr →
+      ¬ (d1 = [] ∧ fr.length ≤ 1) → ExpShape ex → HeadIn (fun c => isBlank c = true) rest →
+      TokCase t (.value ws (sg ++ (d1 ++ (fr ++ ex)))) ws
+  | hex (sg hs' rest : Bytes) (x : UInt8) (ws : Bytes) :
+      t = sg ++ (48 :: x :: (hs' ++ rest)) → SignShape sg → (x = 120 ∨ x = 88) → hs' ≠ [] →
+      (∀ c ∈ hs', isHexDigit c = true) → HeadIn (fun c => isHexDigit c = false) rest →
+      TokCase t (.value ws (sg ++ (48 :: x :: hs'))) ws
+  | noMatch (ws : Bytes) :
+      HeadIn (fun c => isSign c = false ∧ isDigit c = false ∧ c ≠ 46) t → TokCase t (.nomatch ws) ws
+
+/-- the classification of a specified text, case by case -/
+theorem numClass_cases {S : Bytes} (hg : FileSpec.numSpecified S = true) (hne : S.dropWhile isBlank ≠ []) :
+    TokCase (S.dropWhile isBlank) (FileSpec.numClass S) (S.takeWhile isBlank) := by
+  generalize hT : S.dropWhile isBlank = t at *
+  obtain ⟨c0, t0, ht0⟩ := List.exists_cons_of_ne_nil hne
+  have hcls : FileSpec.numClass S ≠ .unspecified := by
+    simpa [FileSpec.numSpecified] using hg
+  unfold FileSpec.numClass at hcls ⊢
+  simp only [hT, ht0] at hcls ⊢
+  rw [← ht0] at hcls ⊢
+  unfold FileSpec.numeralPrefix at hcls ⊢
+  rcases hhx : FileSpec.hexNumeral t with _ | ⟨tok, rest⟩
+  · rw [hhx] at hcls; simp only at hcls
+    simp only [hhx]
+    rcases hdc : FileSpec.decNumeral t with _ | ⟨tok, rest⟩
+    · -- no numeral: the byte cannot begin one
+      rw [hdc] at hcls; simp only at hcls
+      simp only [hdc]
+      by_cases hcs : (FileSpec.canStartNumeral c0 || decide (c0 ≥ 128)) = true
+      · rw [if_pos hcs] at hcls; exact absurd rfl hcls
+      · rw [if_neg hcs]
+        refine TokCase.noMatch _ ?_
+        rw [ht0]
+        refine HeadIn.cons ?_ _
+        simp only [Bool.or_eq_true, not_or, Bool.not_eq_true] at hcs
+        have h1 := hcs.1
+        simp only [FileSpec.canStartNumeral, Bool.or_eq_false_iff] at h1
+        refine ⟨h1.1.1.1.1.1.2, h1.1.1.1.1.1.1, ?_⟩
+        have := h1.1.1.1.1.2
+        intro e; subst e; simp at this
+    · rw [hdc] at hcls; simp only at hcls
+      simp only [hdc]
+      by_cases hcond : (rest = [] ∨ rest.head?.map isBlank = some true) ∧ FileSpec.roundsFinite (FileSpec.numValue tok) = true
+      · rw [if_pos hcond]
+        -- take the decimal numeral apart
+        have hdn := hdc
+        unfold FileSpec.decNumeral at hdn
+        simp only at hdn
+        split at hdn
+        · cases hdn
+        rename_i hnd
+        have hsgn := spanSign_eq t
+        have hfrc := spanFrac_eq ((FileSpec.spanSign t).2.dropWhile isDigit)
+        have hexp := spanExp_eq (FileSpec.spanFrac ((FileSpec.spanSign t).2.dropWhile isDigit)).2
+        generalize (FileSpec.spanSign t).1 = sg at *
+        generalize (FileSpec.spanSign t).2 = s1 at *
+        generalize (FileSpec.spanFrac (s1.dropWhile isDigit)).1 = fr at *
+        generalize (FileSpec.spanFrac (s1.dropWhile isDigit)).2 = s3 at *
+        generalize (FileSpec.spanExp s3).1 = ex at *
+        generalize (FileSpec.spanExp s3).2 = s4 at *
+        simp only [Option.some.injEq, Prod.mk.injEq] at hdn
+        obtain ⟨htok, hrs⟩ := hdn
+        subst hrs
+        have htdec : t = sg ++ (s1.takeWhile isDigit ++ (fr ++ (ex ++ s4))) := by
+          rw [hexp.1, hfrc.1, List.takeWhile_append_dropWhile, hsgn.1]
+        have htok' : tok = sg ++ (s1.takeWhile isDigit ++ (fr ++ ex)) := by rw [← htok]; simp
+        have hrestH : HeadIn (fun c => isBlank c = true) s4 := by
+          cases s4 with
+          | nil => exact Or.inl rfl
+          | cons a b =>
+            rcases hcond.1 with h0 | h0
+            · cases h0
+            · exact HeadIn.cons (by simpa using h0) _
+        rw [htok']
+        exact TokCase.dec sg _ fr ex s4 _ htdec hsgn.2 (fun c hc => mem_tw hc) hfrc.2 hnd hexp.2 hrestH
+      · rw [if_neg hcond] at hcls; exact absurd rfl hcls
+  · rw [hhx] at hcls; simp only at hcls
+    simp only [hhx]
+    by_cases hcond : (rest = [] ∨ rest.head?.map isBlank = some true) ∧ FileSpec.roundsFinite (FileSpec.numValue tok) = true
+    · rw [if_pos hcond]
+      have hdn := hhx
+      unfold FileSpec.hexNumeral at hdn
+      have hsgn := spanSign_eq t
+      generalize (FileSpec.spanSign t).1 = sg at *
+      generalize (FileSpec.spanSign t).2 = s1 at *
+      match s1, hdn, hsgn with
+      | [], hdn, _ => cases hdn
+      | [_], hdn, _ => cases hdn
+      | z :: x :: t2, hdn, hsgn =>
+        simp only at hdn
+        split at hdn
+        · rename_i hc
+          simp only [Option.some.injEq, Prod.mk.injEq] at hdn
+          obtain ⟨htok, hrs⟩ := hdn
+          obtain ⟨hz, hx, hne2⟩ := hc
+          subst hz
+          rw [← htok]
+          refine TokCase.hex sg _ rest x _ ?_ hsgn.2 hx hne2 (fun c hc => mem_tw hc) ?_
+          · rw [← hsgn.1, ← hrs, List.takeWhile_append_dropWhile]
+          · rw [← hrs]; exact dropWhile_head _ _
+        · cases hdn
+    · rw [if_neg hcond] at hcls; exact absurd rfl hcls
+
+/-- **`*n`: on every text whose reading the Spec fixes, the Model reads what the Spec prescribes and the cursor ends
+    where the Spec puts it** — for every buffer size and every amount of read-ahead. -/
+theorem readBufioNumber_sim {R : Nat} (hR : 0 < R) {f : LFile} (h : Readable f)
+    (hg : FileSpec.numSpecified (stream f) = true) :
     ∃ f' out, Reads f f' out ∧
-      fscanNumber R f = (f', toOut (FileSpec.readFmt f.disk (cursor f) .num).1) ∧
+      readBufioNumber R f = (f', toOut (FileSpec.readFmt f.disk (cursor f) .num).1) ∧
       (FileSpec.readFmt f.disk (cursor f) .num).2 = cursor f' := by
   have hSd : f.disk.drop (cursor f) = stream f := h.inv.snap.symm
   generalize hSdef : stream f = S at hg hSd
   have hsplit : S.takeWhile isBlank ++ S.dropWhile isBlank = S := List.takeWhile_append_dropWhile
-  simp only [numProved, Bool.and_eq_true, Bool.or_eq_true, Bool.not_eq_true'] at hg
-  obtain ⟨hlf, hg⟩ := hg
-  have hws : ∀ c ∈ S.takeWhile isBlank, isBlank c = true ∧ c ≠ 10 := by
-    intro c hc
-    refine ⟨mem_tw hc, ?_⟩
-    intro e; subst e
-    have : (S.takeWhile isBlank).contains 10 = true := List.contains_iff_mem.mpr hc
-    rw [hlf] at this; cases this
+  have hws : ∀ c ∈ S.takeWhile isBlank, isBlank c = true := fun c hc => mem_tw hc
   have hfuel : scanFuel f = S.length + 2 := by rw [scanFuel_eq, hSdef]
-  have hs0 : SInv ({ f := f } : Scan) := ⟨h, fun he => by cases he⟩
+  have hs0 : NInv ({ f := f } : NScan) := ⟨h, rfl⟩
   have hlenS : S.length = (S.takeWhile isBlank).length + (S.dropWhile isBlank).length := by
     rw [← List.length_append, hsplit]
+  have hS0 : stream ({ f := f } : NScan).f = S.takeWhile isBlank ++ S.dropWhile isBlank := by
+    show stream f = _; rw [hSdef]; exact hsplit.symm
+  have hstopT : Stops isBlank (S.dropWhile isBlank) := dropWhile_head isBlank S
+  obtain ⟨s1, hk1, hr1, ht1, hi1⟩ := nSkipBlanks_spec hR _ (scanFuel f) hs0 hS0 hws hstopT (by omega)
+  have hS1 : stream s1.f = S.dropWhile isBlank := stream_after hr1 hS0
   by_cases ht : S.dropWhile isBlank = []
   · -- nothing but white space up to the end of the file: nil
-    have hS0 : stream ({ f := f } : Scan).f = S.takeWhile isBlank ++ [] := by
-      show stream f = _; rw [hSdef, List.append_nil]; rw [ht, List.append_nil] at hsplit; exact hsplit.symm
-    obtain ⟨s1, hk1, hr1, _, hi1⟩ := skipSpace_spec hR _ (scanFuel f) hs0 hS0 hws (Or.inl rfl) (by omega)
-    have hS1 : stream s1.f = [] ++ [] := stream_after hr1 hS0
-    obtain ⟨s2, hk2, hr2, _, hi2⟩ := skipSpace_spec hR [] (scanFuel f) hi1 hS1 (by simp) (Or.inl rfl) (by rw [hfuel]; simp)
-    have hS2 : stream s2.f = [] := by rw [reads_nil_stream hr2]; exact hS1
-    obtain ⟨s3, hp3, hr3, _, _⟩ := peekRune_eof hR hi2 hS2
-    have hall := (hr1.trans hr2).trans hr3
-    refine ⟨s3.f, _, hall, ?_, ?_⟩
-    · simp [fscanNumber, hk1, hk2, hp3, FileSpec.readFmt, hSd, FileSpec.numClass, ht, toOut]
-    · simp [FileSpec.readFmt, hSd, FileSpec.numClass, ht, hall.cur]
-  · -- a decimal numeral
-    have hne : (S.dropWhile isBlank).isEmpty = false := by
-      cases hq : S.dropWhile isBlank with
-      | nil => exact absurd hq ht
-      | cons a b => rfl
-    rw [hne] at hg
-    simp only [Bool.false_eq_true, false_or, Bool.and_eq_true] at hg
-    obtain ⟨hhex, hdec⟩ := hg
+    refine ⟨s1.f, _, hr1, ?_, ?_⟩
+    · simp [readBufioNumber, hk1, ht, hi1.noerr, FileSpec.readFmt, hSd, FileSpec.numClass, toOut]
+    · simp [FileSpec.readFmt, hSd, FileSpec.numClass, ht, hr1.cur]
+  · have hk1' : nSkipBlanks R (scanFuel f) { f := f } = (s1, true) := by rw [hk1]; simp [ht]
+    have hcase := numClass_cases hg ht
     generalize hT : S.dropWhile isBlank = t at *
-    rcases hq : FileSpec.decNumeral t with _ | ⟨tok, rest⟩
-    · rw [hq] at hdec; cases hdec
-    rw [hq] at hdec
-    simp only [Bool.and_eq_true, Bool.or_eq_true, beq_iff_eq] at hdec
-    obtain ⟨⟨hrest, hfin⟩, hconv⟩ := hdec
-    -- take the numeral apart
-    have hdn := hq
-    unfold FileSpec.decNumeral at hdn
-    simp only at hdn
-    split at hdn
-    · cases hdn
-    rename_i hnd
-    have hsgn := spanSign_eq t
-    have hfrc := spanFrac_eq ((FileSpec.spanSign t).2.dropWhile isDigit)
-    have hexp := spanExp_eq (FileSpec.spanFrac ((FileSpec.spanSign t).2.dropWhile isDigit)).2
-    generalize hsg : (FileSpec.spanSign t).1 = sg at *
-    generalize hs1 : (FileSpec.spanSign t).2 = s1 at *
-    generalize hfr : (FileSpec.spanFrac (s1.dropWhile isDigit)).1 = fr at *
-    generalize hs3 : (FileSpec.spanFrac (s1.dropWhile isDigit)).2 = s3 at *
-    generalize hex : (FileSpec.spanExp s3).1 = ex at *
-    generalize hs4 : (FileSpec.spanExp s3).2 = s4 at *
-    simp only [Option.some.injEq, Prod.mk.injEq] at hdn
-    obtain ⟨htok, hrs⟩ := hdn
-    subst hrs
-    have hd1 : ∀ c ∈ s1.takeWhile isDigit, isDigit c = true := fun c hc => mem_tw hc
-    have htdec : t = sg ++ (s1.takeWhile isDigit ++ (fr ++ (ex ++ s4))) := by
-      rw [hexp.1, hfrc.1, List.takeWhile_append_dropWhile, hsgn.1]
-    have htok' : tok = sg ++ (s1.takeWhile isDigit ++ (fr ++ ex)) := by rw [← htok]; simp
-    have hrestH : HeadIn (fun c => isBlank c = true) s4 := by
-      cases s4 with
-      | nil => exact Or.inl rfl
-      | cons a b =>
-        rcases hrest with h0 | h0
-        · simp at h0
-        · exact HeadIn.cons (by simpa using h0) _
-    -- the first byte of the numeral is ASCII and not white space
-    have htne : t ≠ [] := ht
-    have hthead : ∃ c t', t = c :: t' ∧ c < 128 ∧ isBlank c = false := by
-      have hnb := dropWhile_head isBlank S
-      rw [hT] at hnb
-      rcases hnb with h0 | ⟨c, t', e, hc⟩
-      · exact absurd h0 htne
-      · refine ⟨c, t', e, ?_, hc⟩
-        -- a sign, a digit or the period
-        rw [htdec] at e
-        rcases hsgn.2 with h1 | ⟨c1, h1, hc1⟩
-        · rw [h1] at e
-          cases hq1 : s1.takeWhile isDigit with
-          | cons a b =>
-            rw [hq1] at e
-            have : c = a := by simpa using (List.cons.inj e).1.symm
-            subst this
-            exact (digit_facts (hd1 c (by rw [hq1]; exact List.mem_cons_self ..))).1
-          | nil =>
-            rw [hq1] at e
-            rcases hfrc.2 with h2 | ⟨d2, h2, _⟩
-            · exact absurd ⟨hq1, by rw [h2]; simp⟩ hnd
-            · rw [h2] at e
-              have : c = 46 := by simpa using (List.cons.inj e).1.symm
-              subst this; decide
-        · rw [h1] at e
-          have : c = c1 := by simpa using (List.cons.inj e).1.symm
-          subst this
-          exact (sign_facts hc1).1
-    obtain ⟨c0, t0, ht0, hc0, hnb0⟩ := hthead
-    have hS0 : stream ({ f := f } : Scan).f = S.takeWhile isBlank ++ t := by
-      show stream f = _; rw [hSdef]; exact hsplit.symm
-    have hTstop : t = [] ∨ ∃ c t', t = c :: t' ∧ c < 128 ∧ isBlank c = false := Or.inr ⟨c0, t0, ht0, hc0, hnb0⟩
-    obtain ⟨s1', hk1, hr1, _, hi1⟩ := skipSpace_spec hR _ (scanFuel f) hs0 hS0 hws hTstop (by omega)
-    have hS1 : stream s1'.f = [] ++ t := stream_after hr1 hS0
-    obtain ⟨s2, hk2, hr2, _, hi2⟩ := skipSpace_spec hR [] (scanFuel f) hi1 hS1 (by simp) hTstop (by rw [hfuel]; simp)
-    have hS2 : stream s2.f = c0 :: t0 := by rw [reads_nil_stream hr2, ← ht0]; exact hS1
-    obtain ⟨f3, hr3, _, hp3⟩ := peekRune_ascii hR hi2 hS2 hc0
-    have hi3 : SInv ({ s2 with f := f3 } : Scan) := ⟨hi2.rd.of_reads hr3, fun he => by
-      have := hi2.eof he; rw [hS2] at this; cases this⟩
-    have hS3 : stream ({ s2 with f := f3 } : Scan).f = sg ++ (s1.takeWhile isDigit ++ (fr ++ (ex ++ s4))) := by
-      show stream f3 = _
-      rw [reads_nil_stream hr3, hS2, ← ht0]; exact htdec
-    have hlt : t.length ≤ S.length := by omega
-    obtain ⟨s4', hft, hr4, hb4, _⟩ := floatToken_dec hR hi3 (scanFuel f) hS3 hsgn.2 hd1 hfrc.2 hnd hexp.2 hrestH
-      (by rw [← htdec]; omega)
-    rw [← htok'] at hr4 hb4
-    have hall := ((hr1.trans hr2).trans hr3).trans hr4
-    have hcls : FileSpec.numClass S = .value (S.takeWhile isBlank) tok := by
-      have hh : FileSpec.hexNumeral t = none := by
-        cases hx : FileSpec.hexNumeral t with
-        | none => rfl
-        | some v => rw [hx] at hhex; cases hhex
-      have hcond : (s4 = [] ∨ Option.map isBlank s4.head? = some true) ∧ FileSpec.roundsFinite (FileSpec.numValue tok) = true := by
-        refine ⟨?_, hfin⟩
-        rcases hrest with h0 | h0
-        · left; simpa using h0
-        · right; exact h0
-      simp only [FileSpec.numClass, hT]
-      rw [ht0] at hh hq
-      simp only [ht0, FileSpec.numeralPrefix, hh, hq, hcond, and_self, if_true]
-    refine ⟨s4'.f, _, hall, ?_, ?_⟩
-    · simp [fscanNumber, hk1, hk2, hp3, hft, hb4, hconv, FileSpec.readFmt, hSd, hcls, toOut]
-    · simp [FileSpec.readFmt, hSd, hcls, hall.cur]
-      omega
-
-/-! ### the line feed: `SkipSpace` of `Fscanf` gives up at the first one -/
-
-theorem skipSpace_newline {R : Nat} (hR : 0 < R) :
-    ∀ (ws : Bytes) (fuel : Nat) {s : Scan} {T : Bytes}, SInv s → stream s.f = ws ++ 10 :: T →
-      (∀ c ∈ ws, isBlank c = true ∧ c ≠ 10) → ws.length < fuel →
-      ∃ s', skipSpace R fuel s = (s', .newline) ∧ Reads s.f s'.f (ws ++ [10]) := by
-  intro ws
-  induction ws with
-  | nil =>
-    intro fuel s T hs hS _ hf
-    cases fuel with
-    | zero => omega
-    | succ n =>
-      have hS' : stream s.f = 10 :: T := by rw [hS]; rfl
-      obtain ⟨f', hr, ⟨t', hb⟩, hp⟩ := peekRune_ascii hR hs hS' (by decide)
-      obtain ⟨h1, _, _⟩ := advance_ascii hs hS' hr hb
-      refine ⟨_, ?_, by simpa using h1⟩
-      unfold skipSpace
-      simp [hp]
-  | cons c ws ih =>
-    intro fuel s T hs hS hall hf
-    cases fuel with
-    | zero => omega
-    | succ n =>
-      have hcb := hall c (List.mem_cons_self ..)
-      have hc : c < 128 := by have := hcb.1; byte_omega
-      have hS' : stream s.f = c :: (ws ++ 10 :: T) := by rw [hS]; rfl
-      obtain ⟨f', hr, ⟨t', hb⟩, hp⟩ := peekRune_ascii hR hs hS' hc
-      obtain ⟨h1, h2, h3⟩ := advance_ascii hs hS' hr hb
-      have hall' : ∀ c' ∈ ws, isBlank c' = true ∧ c' ≠ 10 := fun c' hc' => hall c' (List.mem_cons_of_mem _ hc')
-      have hf' : ws.length < n := by simp at hf; omega
-      have h10 : c.toNat ≠ 10 := by have := hcb.2; byte_omega
-      have hsp : isSpaceRune c.toNat = true := by have := hcb.1; byte_omega
-      by_cases h13 : c.toNat = 13
-      · have hh : stream (({ s with f := f' } : Scan).advance 1).f = [] ∨
-            ∃ c2 t2, stream (({ s with f := f' } : Scan).advance 1).f = c2 :: t2 ∧ c2 < 128 := by
-          rw [h3]
-          right
-          cases ws with
-          | nil => exact ⟨10, T, rfl, by decide⟩
-          | cons c2 ws2 =>
-            have := (hall' c2 (List.mem_cons_self ..)).1
-            exact ⟨c2, ws2 ++ 10 :: T, rfl, by byte_omega⟩
-        obtain ⟨s2, r, hp2, hne, hr2, _, hi2⟩ := peekRune_ok hR h2 hh
-        have hS2 : stream s2.f = ws ++ 10 :: T := by rw [reads_nil_stream hr2]; exact h3
-        obtain ⟨s3, hk, hr3⟩ := ih n hi2 hS2 hall' hf'
-        refine ⟨s3, ?_, ?_⟩
-        · unfold skipSpace
-          simp only [hp, h13, if_true, hp2]
-          cases r with
-          | err => exact absurd rfl hne
-          | eof => exact hk
-          | rune a b => exact hk
-        · have := (h1.trans hr2).trans hr3
-          simpa using this
-      · obtain ⟨s3, hk, hr3⟩ := ih n h2 h3 hall' hf'
-        refine ⟨s3, ?_, ?_⟩
-        · unfold skipSpace
-          simp only [hp, h13, h10, if_false, hsp, if_true]
-          exact hk
-        · have := h1.trans hr3
-          simpa using this
-
-/-- **whenever a line feed is among the white space in front of the numeral, `*n` fails** (`errreturn`: nil, "unexpected
-    newline", 1) and the cursor stops right after the first line feed — from every state with the invariant, whatever
-    follows the line feed. -/
-theorem fscanNumber_newline {R : Nat} (hR : 0 < R) {f : LFile} (h : Readable f) {ws T : Bytes}
-    (hS : stream f = ws ++ 10 :: T) (hws : ∀ c ∈ ws, isBlank c = true ∧ c ≠ 10) :
-    ∃ f', Reads f f' (ws ++ [10]) ∧ fscanNumber R f = (f', .err) := by
-  have hs0 : SInv ({ f := f } : Scan) := ⟨h, fun he => by cases he⟩
-  have hf : ws.length < scanFuel f := by
-    rw [scanFuel_eq, hS]; simp; omega
-  obtain ⟨s1, hk, hr⟩ := skipSpace_newline hR ws (scanFuel f) hs0 (T := T) hS hws hf
-  exact ⟨s1.f, hr, by simp [fscanNumber, hk]⟩
+    have htok0 : s1.tok = [] := ht1
+    -- the three shapes
+    have key : ∀ (out tok : Bytes) (v : Option Bytes), NStep s1 (nToken R (scanFuel f) s1) out →
+        (parseNumberOk out = true → v = some out) → (parseNumberOk out = false → v = none) →
+        ∃ f', Reads f f' (S.takeWhile isBlank ++ out) ∧ readBufioNumber R f = (f', toOut v) := by
+      intro out tok v hst hv1 hv2
+      refine ⟨(nToken R (scanFuel f) s1).f, hr1.trans hst.reads, ?_⟩
+      have htk : (nToken R (scanFuel f) s1).tok = out := by rw [hst.tok, htok0]; rfl
+      simp only [readBufioNumber, hk1', hst.inv.noerr, Bool.false_eq_true, if_false, htk]
+      by_cases hp : parseNumberOk out = true
+      · rw [if_pos hp, hv1 hp]; rfl
+      · rw [if_neg hp, hv2 (by simpa using hp)]; rfl
+    generalize hcls : FileSpec.numClass S = cls at hcase
+    generalize hwsd : S.takeWhile isBlank = ws0 at hcase
+    cases hcase with
+    | dec sg d1 fr ex rest _ htd hsg hd1 hfr hnd hex hrest =>
+      subst hwsd
+      have hst := nToken_dec hR hi1 (scanFuel f) (by rw [hS1]; exact htd) hsg hd1 hfr hnd hex hrest
+        (by rw [← htd]; omega)
+      have hok : parseNumberOk (sg ++ (d1 ++ (fr ++ ex))) = true := by
+        simp [parseNumberOk, luaNumeralBase_dec hsg hd1 hfr hnd hex]
+      obtain ⟨f', hr, he⟩ := key _ [] (some (sg ++ (d1 ++ (fr ++ ex)))) hst (fun _ => rfl) (fun h0 => by rw [hok] at h0; cases h0)
+      refine ⟨f', _, hr, ?_, ?_⟩
+      · rw [he]; simp [FileSpec.readFmt, hSd, hcls]
+      · simp only [FileSpec.readFmt, hSd, hcls, hr.cur, List.length_append]; omega
+    | hex sg hs' rest x _ htd hsg hx hne2 hh hrest =>
+      subst hwsd
+      have hl : hs'.length ≤ t.length := by rw [htd]; simp; omega
+      have hst := nToken_hex hR hi1 (scanFuel f) (by rw [hS1]; exact htd) hsg hx hh hrest (by omega)
+      have hok : parseNumberOk (sg ++ (48 :: x :: hs')) = true := by
+        simp [parseNumberOk, luaNumeralBase_hex hsg hx hne2 hh]
+      obtain ⟨f', hr, he⟩ := key _ [] (some (sg ++ (48 :: x :: hs'))) hst (fun _ => rfl) (fun h0 => by rw [hok] at h0; cases h0)
+      refine ⟨f', _, hr, ?_, ?_⟩
+      · rw [he]; simp [FileSpec.readFmt, hSd, hcls]
+      · simp only [FileSpec.readFmt, hSd, hcls, hr.cur, List.length_append]; omega
+    | noMatch _ hhead =>
+      subst hwsd
+      have hst := nToken_none hR hi1 (scanFuel f) (by omega) (by rw [hS1]; exact hhead)
+      have hok : parseNumberOk [] = false := by decide
+      obtain ⟨f', hr, he⟩ := key [] [] none hst (fun h0 => by rw [hok] at h0; cases h0) (fun _ => rfl)
+      refine ⟨f', _, hr, ?_, ?_⟩
+      · rw [he]; simp [FileSpec.readFmt, hSd, hcls]
+      · simp [FileSpec.readFmt, hSd, hcls, hr.cur]
 
 end GLua.IoFile
